@@ -48,6 +48,7 @@ def run(chk, F):
                        "%s selects the prefix differently from Registry::lookup: %s vs %s (canonicalising or dependency ordering "
                        "would then read a name differently from evaluation)" % (k, dict(v), dict(base)))
     chk.guard("exact-stage-agreement", "Registry", lambda: exact_stage(chk, F))
+    chk.guard("exact-stage-agreement", "closes_alias_cycle", lambda: cycle_walk_reading(chk, F))
     chk.guard("context-lookup", "Context::lookup", lambda: context_lookup(chk, F))
     chk.guard("determinism", "registry", lambda: determinism(chk, F))
     import shared_rules
@@ -302,6 +303,55 @@ def determinism(chk, F):
     chk.decide(not bad, "determinism", "rink_core::lookup+canonicalize", "no-hash-clock-env", "",
                "no hash container, clock, environment, thread or randomness call among the %d functions reachable from lookup/canonicalize" % len(reach),
                "non-deterministic source reachable from name resolution: %s" % bad[:3])
+
+
+def cycle_walk_reading(chk, F):
+    """The loader's alias-cycle walk (closes_alias_cycle) reads names too: it must read them the way lookup does - exactly first.
+    lookup_exact answers from `units` and `base_units`; a base unit has no recorded definition, so unless the walk tests
+    `base_units` before it strips prefixes, `cd` (candela) is read as centi-`d` and `d candela` is refused as "an alias of itself".
+    Rule: in the closure that tries the prefixed reading, or in every place that uses it, the prefix iteration is reachable only
+    through the failing edge of `base_units.contains(name)`."""
+    import k2
+    root = F.find(CORE, "loader::load::closes_alias_cycle")
+    fam = [root] + [f for f in F.by_crate[CORE] if f.path.startswith(root.path + "::{closure")]
+    fk = "rink_core::loader::load::closes_alias_cycle"
+
+    def base_test(fn):
+        def acc(kind, ap, info):
+            r = ap[0]
+            if kind == "bool" and r[0] == "call" and r[1].endswith("::contains") and r[2] and "base_units" in ap_str(r[2][0]):
+                return {"false"}
+            return None
+        return acc
+    pf = []
+    for f in fam:
+        its = [bb for bb, t in f.calls() if "callee" in t and t["callee"]["path"].endswith("::iter") and t["args"] and "prefixes" in ap_str(f.apath(t["args"][0]))]
+        if its:
+            pf.append((f, its))
+    if len(pf) != 1:
+        raise AnchorLost("closes_alias_cycle: expected one closure that iterates registry.prefixes, found %d" % len(pf))
+    P, its = pf[0]
+    res, matched = k2.cut_gate(P, its, base_test(P))
+    ok = bool(matched) and all(res.values())
+    where = P.where(its[0])
+    if not ok:
+        # every use of P (a call, or P handed to a combinator / captured by another closure) in the enclosing closure
+        users = [f for f in fam if f.id != P.id and P.path.startswith(f.path + "::{closure")]
+        users.sort(key=lambda f: -len(f.path))
+        D = users[0] if users else None
+        if D is not None:
+            acts = []
+            for bb, t in D.calls():
+                if "callee" in t and (t["callee"]["path"] == P.path or any(("closure:" + P.path.rsplit("::{closure", 1)[0]) in ap_str(D.apath(a)) for a in t["args"])):
+                    acts.append(bb)
+            if acts:
+                res, matched = k2.cut_gate(D, acts, base_test(D))
+                ok = bool(matched) and all(res.values())
+                where = D.where(acts[0])
+    chk.decide(ok, "exact-stage-agreement", fk, "cycle-walk-reads-base-units-exactly", where,
+               "the alias-cycle walk tries a prefixed reading of a name only after `base_units.contains(name)` failed, like lookup",
+               "the alias-cycle walk strips prefixes from a name without first asking whether it is a base unit: `cd` is read as centi-`d`, so "
+               "`d candela` (loaded after `cd !candela` and `c-- 1|100`) is refused as \"unit d is an alias of itself\"")
 
 
 def exact_stage(chk, F):
